@@ -405,12 +405,32 @@ class PolygonTensor(PolytopeTensor):
             kwargs["copy"] = False
             args = (np.stack(args, axis=-2),)
         super().__init__(*args, pdim=2, **kwargs)
-        self._plane = join(*self.vertices[: self.dim]) if self.dim > 2 else None
+        self._plane = self._supporting_plane() if self.dim > 2 else None
+
+    def _supporting_plane(self) -> PlaneTensor:
+        vertices = self.vertices
+        try:
+            return join(*vertices[: self.dim])
+        except LinearDependenceError:
+            # the first vertices are collinear (e.g. a vertex in the middle of a side): use the first vertices that span the plane
+            plane = None
+            todo = np.ones(self.shape[: -2], dtype=bool)
+            for ind in combinations(range(len(vertices)), self.dim):
+                candidate = join(*[vertices[i] for i in ind], _check_dependence=False)
+                spans = todo & ~candidate.is_zero()
+                if plane is None:
+                    plane = candidate
+                elif np.any(spans):
+                    plane.array[spans] = candidate.array[spans]
+                todo &= ~spans
+                if not np.any(todo):
+                    return plane
+            raise
 
     def __apply__(self, transformation: TransformationTensor) -> PolygonTensor:
         result = super().__apply__(transformation)
         if result.dim > 2:
-            result._plane = join(*result.vertices[: result.dim])
+            result._plane = result._supporting_plane()
         return result
 
     @property
